@@ -219,13 +219,16 @@ func ZZ_C16_interface_struct_names() {
 // text; the float helpers themselves are not executed).
 func ZZ_C16_float_helper_names() {
 	name := []string{"naga_modf", "naga_frexp", "plain"}[zz.Choice("name", 3)]
+	sname := []string{"_modf_result_f32", "_frexp_result_f32", "Holder"}[zz.Choice("struct", 3)]
 	backend := zz.Choice("backend", 3)
-	zz.Cell(fmt.Sprintf("float-helper/%s/%d", name, backend))
+	zz.Cell(fmt.Sprintf("float-helper/%s/%s/%d", name, sname, backend))
 	src := "fn " + name + "(x: f32) -> f32 { return x * 2.0; }\n" +
+		"struct " + sname + " { a: f32 }\n" +
 		"@group(0) @binding(0) var<storage, read_write> s: array<f32, 8>;\n" +
 		"@compute @workgroup_size(1) fn main() {\n" +
 		"  let m = modf(s[0]);\n  let f = frexp(s[1]);\n" +
-		"  s[2] = m.fract + f.fract + " + name + "(s[3]);\n}\n"
+		"  var u: " + sname + ";\n  u.a = m.fract;\n" +
+		"  s[2] = u.a + f.fract + " + name + "(s[3]);\n}\n"
 	ast, err := Parse(src)
 	zz.Assert(err == nil, "program does not parse")
 	if err != nil {
@@ -261,6 +264,21 @@ func ZZ_C16_float_helper_names() {
 	}
 	for _, dup := range prog.Dups {
 		zz.Fail("emitted text redefines a name (user identifier clashes with a generated one): " + dup)
+	}
+	zz.Reach("end")
+}
+
+// GLSL interface block names (<Type>_block_<n><Stage>) share the global namespace with struct
+// types: a user struct of exactly that name next to a buffer of type Foo.
+func ZZ_C16_glsl_block_names() {
+	sname := []string{"Foo_block_0Compute", "Foo_block_1Compute", "Holder"}[zz.Choice("struct", 3)]
+	zz.Cell("block/" + sname)
+	src := "struct Foo { a: u32, b: u32 }\nstruct " + sname + " { c: u32 }\n" +
+		"@group(0) @binding(0) var<storage, read_write> s: Foo;\n" +
+		"@compute @workgroup_size(1) fn main() {\n  var t: " + sname + ";\n  t.c = s.a;\n  s.b = t.c + 1u;\n}\n"
+	in := []uint32{zz.U32("a"), zz.U32("b")}
+	if out, ok := zzCompileAndRunGLSL(src, in, [3]uint32{}, nil); ok && len(out) == 2 {
+		zz.Assert(out[0] == in[0] && out[1] == in[0]+1, "with these identifiers the emitted text computes a different value")
 	}
 	zz.Reach("end")
 }
